@@ -54,3 +54,31 @@ Proof. vm_compute. repeat split; discriminate. Qed.
 Print Assumptions C11_accept_iff_wf.
 Print Assumptions C11_error_names_object.
 Print Assumptions C11_overlap_all_pairs.
+
+(* ---- whole pipeline (Pipeline.v: all passes sequenced in run_passes order; its printed verdict is what the
+   pipeline phase of this check compares with the real generator on arbitrary definitions) ----
+   Whatever the whole generator accepts has only well-formed field sets. *)
+From DD Require Pipeline PipelineProofs Names.
+Theorem C11_whole_pipeline_accept_implies_wf : forall fuel dev_name d0,
+  Pipeline.pipeline_result fuel dev_name d0 = "ok"%string -> wf_layout (Names.names_normalized d0).
+Proof.
+  intros fuel dev_name d0 H. apply (PipelineProofs.pipeline_accept_wf_layout fuel dev_name).
+  apply PipelineProofs.pipeline_result_ok_iff, H.
+Qed.
+
+(* the pipeline accepts exactly when every pass accepts (no pass is skipped or consulted twice with another input) *)
+Theorem C11_whole_pipeline_accept_iff_all_passes : forall fuel dev_name d0,
+  Pipeline.pipeline fuel dev_name d0 = Pipeline.PAccept <-> PipelineProofs.accepted_by_all fuel dev_name d0.
+Proof. exact PipelineProofs.pipeline_accept_iff. Qed.
+
+Print Assumptions C11_whole_pipeline_accept_implies_wf.
+Print Assumptions C11_whole_pipeline_accept_iff_all_passes.
+
+(* non-vacuity of the whole-pipeline statements: an accepted definition exists, and a layout defect is what the
+   whole pipeline reports when nothing earlier is wrong *)
+Example C11_whole_pipeline_somewhere :
+  let dev objs := {| d_config := ex_cfg; d_objects := objs |} in
+  Pipeline.pipeline_result 20 "Dev" (dev [ex_reg 16 (Some BoLE) false [ex_field "a" BUint 0 8; ex_field "b" BBool 8 8]]) = "ok"%string /\
+  Pipeline.pipeline_result 20 "Dev" (dev [ex_reg 8 None false [ex_field "a" BUint 0 5; ex_field "b" BUint 4 8]])
+    = "error:field_overlap:Reg|a|b"%string.
+Proof. vm_compute. split; reflexivity. Qed.
